@@ -125,9 +125,32 @@ PlainVariants(k) ==
 
 Kinds == PlantKinds \cup SchemaKinds
 
+(* CTE scoping as a dimension of its own.  A WITH clause is defined at the top *)
+(* of the statement or inside a nested sub-select (site); its name is fresh    *)
+(* ("c1") or equal to the real table S (name); the name is referenced inside   *)
+(* the CTE's scope, outside it, or both (ref); its body is constant or reads U *)
+(* (body); nest = how the WITH-bearing sub-select is embedded.  SQL scoping:   *)
+(* inside the scope the name is the CTE, outside it is the real table.         *)
+NoCte == [on |-> FALSE, site |-> "", name |-> "", ref |-> "", body |-> "", nest |-> ""]
+CteKinds == {"select", "update", "delete"}
+CtesOf(k) ==
+  {c \in [on : {TRUE}, site : {"top", "nested"}, name : {"fresh", "shadow"}, ref : {"inside", "outside", "both"},
+          body : {"const", "table"}, nest : {"in", "scalar", "exists"}] :
+     /\ (c.site = "top" => k = "select" /\ c.ref = "inside")      \* WITH cannot prefix UPDATE/DELETE; its scope is the whole statement
+     /\ (c.ref \in {"outside", "both"} => c.name = "shadow")}     \* a fresh name does not exist outside its scope
+
+(* batches: two statements on T in one request (JSON array on @sql, two sql    *)
+(* tasks on @transaction); each statement is authorized for itself             *)
+BatchKinds == {"insert", "update", "delete", "select"}
+AllKinds == Kinds \cup {"batch"}
+
+Mk(k, v, ps) == [kind |-> k, var |-> v, plants |-> ps, cte |-> NoCte, batch |-> <<>>]
 Shapes ==
-  UNION {{[kind |-> k, var |-> v, plants |-> <<>>] : v \in PlainVariants(k)} : k \in Kinds}
-  \cup UNION {{[kind |-> k, var |-> "plain", plants |-> ps] : ps \in Chains(k)} : k \in PlantKinds}
+  UNION {{Mk(k, v, <<>>) : v \in PlainVariants(k)} : k \in Kinds}
+  \cup UNION {{Mk(k, "plain", ps) : ps \in Chains(k)} : k \in PlantKinds}
+  \cup UNION {{[kind |-> k, var |-> "plain", plants |-> <<>>, cte |-> c, batch |-> <<>>] : c \in CtesOf(k)} : k \in CteKinds}
+  \cup {x \in {[kind |-> "batch", var |-> "plain", plants |-> <<>>, cte |-> NoCte, batch |-> <<a, b>>] :
+                   a \in BatchKinds, b \in BatchKinds} : x.batch[1] # x.batch[2]}
 
 -----------------------------------------------------------------------------
 (* what the property statement demands                                       *)
@@ -148,16 +171,24 @@ CteNames(ps) == {Perm(Cte[i + 1], "read") : i \in {j \in 1..Len(ps) : ps[j].form
 (* CREATE VIEW stores its body, it does not read it (SQLite opens only the     *)
 (* schema table): the statement demands schema authority, no read             *)
 Stored(k) == k = "create_view"
-Required(s) == Own(s.kind) \cup (IF Stored(s.kind) THEN {} ELSE Nested(s.plants))
+CteUsed(c) == c.on /\ c.ref \in {"inside", "both"}       \* the name is referenced inside the scope: the CTE (its body) is read
+CteOutside(c) == c.on /\ c.ref \in {"outside", "both"}   \* the name is referenced outside the scope: that is the real table S
+CteBase(c) == (IF CteOutside(c) THEN {"S"} ELSE {}) \cup (IF CteUsed(c) /\ c.body = "table" THEN {"U"} ELSE {})
+CteReq(c) == {Perm(t, "read") : t \in CteBase(c)}
+
+Required(s) ==
+  IF s.kind = "batch" THEN UNION {Own(s.batch[j]) : j \in 1..Len(s.batch)}
+  ELSE Own(s.kind) \cup (IF Stored(s.kind) THEN {} ELSE Nested(s.plants)) \cup CteReq(s.cte)
 
 (* base tables SQLite has to open below level 0 (a view expands to its table) *)
-NestedBase(s) == IF Stored(s.kind) THEN {} ELSE {Tab[i + 1] : i \in 1..Len(s.plants)}
+NestedBase(s) == (IF Stored(s.kind) THEN {} ELSE {Tab[i + 1] : i \in 1..Len(s.plants)}) \cup CteBase(s.cte)
 IsSchema(s) == s.kind \in SchemaKinds
 
 (* the permission universe, written out (TLC re-enumerates lazily built sets  *)
 (* on every use); DemandsOK is checked once as an ASSUME in the MC module    *)
 Demands == {Perm("T", "read"), Perm("T", "insert"), Perm("T", "update"), Perm("T", "delete"), SchemaPerm}
            \cup {Perm(Tab[i + 1], "read") : i \in 1..MaxDepth} \cup {Perm(View[i + 1], "read") : i \in 1..MaxDepth}
+           \cup {Perm("U", "read")}      \* CTE bodies read U at every bound
 AllGrants == Demands \cup {Perm(Cte[i + 1], "read") : i \in 1..MaxDepth}
 Profiles == {AllGrants} \cup {AllGrants \ {d} : d \in Demands}
 DemandsOK == /\ Demands = UNION {Required(s) : s \in Shapes}
@@ -176,10 +207,19 @@ Walked(k, pos) ==
          [] OTHER              -> TRUE
 AdminReported(k) == k \in SchemaKinds /\ (Extract = "complete" \/ k # "drop_index")   \* DROP INDEX reports no usage
 
+(* Tables() is syntactic: it reports every table reference, a CTE name and an *)
+(* unused CTE body included (stricter than the statement, which is allowed)   *)
+CteChecks(c) ==
+  IF ~c.on THEN {}
+  ELSE {Perm(IF c.name = "shadow" THEN "S" ELSE "c1", "read")} \cup (IF c.body = "table" THEN {Perm("U", "read")} ELSE {})
+
 Checks(s) ==
+  IF s.kind = "batch" THEN UNION {Own(s.batch[j]) : j \in 1..Len(s.batch)}
+  ELSE
   (IF s.kind \in SchemaKinds THEN (IF AdminReported(s.kind) THEN {SchemaPerm} ELSE {}) ELSE Own(s.kind))
   \cup (IF Len(s.plants) > 0 /\ Walked(s.kind, s.plants[1].pos)
           THEN Nested(s.plants) \cup CteNames(s.plants) ELSE {})
+  \cup CteChecks(s.cte)
 
 Authorize(s, g) == Checks(s) \subseteq g
 
@@ -301,8 +341,21 @@ PlainSql(k, v) ==
     [] k = "drop_view"       -> IF v = "if_exists" THEN "DROP VIEW IF EXISTS W" ELSE "DROP VIEW W"
     [] OTHER                 -> "?plain?"
 
+CteName(c) == IF c.name = "shadow" THEN "S" ELSE "c1"
+CteBody(c) == IF c.body = "table" THEN "SELECT p AS x, q AS y FROM U" ELSE "SELECT 1 AS x, 100 AS y"
+CteInner(c) == IF CteUsed(c) THEN "SELECT x FROM " \o CteName(c) ELSE "SELECT 1"
+CteWith(c) == "WITH " \o CteName(c) \o " AS " \o P(CteBody(c)) \o " "
+CteIQ(c) == (IF c.site = "top" THEN "" ELSE CteWith(c)) \o CteInner(c)
+CteNest(c) == CASE c.nest = "in" -> "a IN " \o P(CteIQ(c)) [] c.nest = "scalar" -> "a = " \o P(CteIQ(c)) [] OTHER -> "EXISTS " \o P(CteIQ(c))
+CteSql(k, c) ==
+  (IF c.site = "top" THEN CteWith(c) ELSE "")
+  \o (CASE k = "select" -> "SELECT a FROM T WHERE " [] k = "update" -> "UPDATE T SET b = 5 WHERE " [] OTHER -> "DELETE FROM T WHERE ")
+  \o (IF CteOutside(c) THEN "a IN (SELECT x FROM S) OR " ELSE "") \o CteNest(c)
+
 Sql(s) ==
-  IF Len(s.plants) = 0 THEN PlainSql(s.kind, s.var)
+  IF s.kind = "batch" THEN PlainSql(s.batch[1], "plain") \o "; " \o PlainSql(s.batch[2], "plain")
+  ELSE IF s.cte.on THEN CteSql(s.kind, s.cte)
+  ELSE IF Len(s.plants) = 0 THEN PlainSql(s.kind, s.var)
   ELSE IF s.kind = "select" THEN Sel(s.plants, 0, 1)
   ELSE
     LET k   == s.kind
@@ -338,5 +391,10 @@ Sql(s) ==
          [] OTHER                                   -> "?stmt?"
 
 (* abstract identity of a shape for findings: kind / position of the level-1 plant *)
-PosKey(s) == IF Len(s.plants) = 0 THEN "-" ELSE s.plants[1].pos
+(* the statements of the request, one by one *)
+SqlSeq(s) == IF s.kind = "batch" THEN <<PlainSql(s.batch[1], "plain"), PlainSql(s.batch[2], "plain")>> ELSE <<Sql(s)>>
+
+PosKey(s) == IF s.kind = "batch" THEN s.batch[1] \o "+" \o s.batch[2]
+             ELSE IF s.cte.on THEN "cte-" \o s.cte.site \o "-" \o s.cte.name \o "-" \o s.cte.ref
+             ELSE IF Len(s.plants) = 0 THEN "-" ELSE s.plants[1].pos
 =============================================================================
